@@ -108,6 +108,8 @@ def check_instance(rec, ctx, e, key, shape, rng):
             for trial in range(3):
                 order = [names[i] for i in rng.permutation(len(names))]
                 n_pos = int(rng.integers(0, len(sf_names) + 1)) if trial else 0
+                if names[: len(sf_names)] != sf_names:
+                    n_pos = 0   # a non-SymPy field is declared before a SymPy field: positional arguments follow the declaration order
                 pos = [vals[nm] for nm in sf_names[:n_pos]]
                 kw = {nm: vals[nm] for nm in order if nm not in sf_names[:n_pos]}
                 if trial == 2:   # only the fields without a default, by keyword (defaults left out)
@@ -238,9 +240,11 @@ def _callable_attrs(rec, ctx, rng):
             continue
         n_cls += 1
         args = [pool.integer("symbol", 1) if f.name in exprs.INT_FIELDS else pool.scalar("symbol", fi) for fi, f in enumerate(exprs.sympy_fields(cls))]
+        _others = {f.name: None for f in exprs.non_sympy_fields(cls) if f.name != "phsp_factor" and f.default is dataclasses.MISSING}
+        mk = lambda fn_: exprs.build(cls, args, {"phsp_factor": fn_, **_others})  # noqa: E731
         feats = {"cls": cls.__name__, "shape": "callable_attr", "nested": False, "non_sympy_fields": ["phsp_factor"]}
         for gname, (f1, f2) in groups.items():
-            w1, w2, w1b = cls(*args, phsp_factor=f1), cls(*args, phsp_factor=f2), cls(*args, phsp_factor=f1)
+            w1, w2, w1b = mk(f1), mk(f2), mk(f1)
             rec.hit("law:hash_eq")
             rec.case((cls.__name__, "callable_attr", "hash_eq", gname), True, cls=cls.__name__, law="hash_eq", shape="callable_attr")
             rec.check(w1 == w1b and hash(w1) == hash(w1b), "hash_eq", f"{cls.__name__}: two instances with the same function object as phsp_factor ({gname}) are unequal", None, {**feats, "map": gname})
